@@ -21,7 +21,7 @@ func New() core.Prop { return prop{} }
 func (prop) ID() string { return "C18" }
 
 // Finish removes the private directories the streams created.
-func (prop) Finish(*core.Session) { zooCleanup() }
+func (prop) Finish(*core.Session) { zooCleanup(); fcgiCleanup() }
 
 var pieces = []string{
 	"{", "}", "\\", "a", "b", "env.X", ".", " ", "{a}", "{b}", "{c}", "{unk}", "\\{", "\\}",
@@ -136,6 +136,9 @@ func (prop) Generate(rng *core.Rand, tier string, emit func(string)) {
 	}
 	for c := 0; c < n/10; c++ {
 		genDial(rng.Fork(), emit)
+	}
+	for c := 0; c < n/16; c++ {
+		genFcgi(rng.Fork(), emit)
 	}
 	for c := 0; c < n; c++ {
 		var sb strings.Builder
@@ -285,6 +288,9 @@ func (prop) Run(line string) core.Outcome {
 	}
 	if len(f) == 5 && f[0] == "httprw" {
 		return runRewrite(line, f)
+	}
+	if len(f) == 10 && f[0] == "fcgi" {
+		return runFcgi(line, f)
 	}
 	if len(f) == 6 && f[0] == "httpdial" {
 		return runDial(line, f)
